@@ -569,4 +569,62 @@ theorem marshal_length_cond (p : Packet) (w : Bytes) (hm : marshal p = .ok w)
     exact ⟨hwl, by omega, by omega⟩
   · rw [if_neg hcond] at hm; cases hm
 
+/-! ### algebraic laws of the ordered multimap (C09, added last) -/
+
+theorem setAux_setAux (k : Int) (v w : Bytes) (as : Attrs) :
+    Spec.setAux k w (Spec.setAux k v as) = Spec.setAux k w as := by
+  induction as with
+  | nil => rfl
+  | cons a as ih =>
+    by_cases hk : a.typ = k
+    · simp [Spec.setAux, hk, List.filter_filter]
+    · simp [Spec.setAux, hk, ih]
+
+theorem setAux_any (k : Int) (v : Bytes) (as : Attrs) (h : as.any (fun a => a.typ = k) = true) :
+    (Spec.setAux k v as).any (fun a => a.typ = k) = true := by
+  induction as with
+  | nil => simp at h
+  | cons a as ih =>
+    by_cases hk : a.typ = k
+    · simp [Spec.setAux, hk]
+    · simp [hk] at h
+      simp [Spec.setAux, hk]
+      have := ih (by simpa using h)
+      simpa using this
+
+theorem setAux_append_absent (k : Int) (v w : Bytes) (as : Attrs)
+    (h : as.any (fun a => a.typ = k) = false) :
+    Spec.setAux k w (as ++ [⟨k, v⟩]) = as ++ [⟨k, w⟩] := by
+  induction as with
+  | nil => simp [Spec.setAux]
+  | cons a as ih =>
+    have hk : ¬ a.typ = k := by
+      intro e; simp [e] at h
+    have h' : as.any (fun a => a.typ = k) = false := by
+      simp [hk] at h; simpa using h
+    simp [Spec.setAux, hk, ih h']
+
+theorem lookup_other_of_filter_ne (as bs : Attrs) (j k : Int) (hjk : j ≠ k)
+    (h : bs.filter (fun a => a.typ ≠ k) = as.filter (fun a => a.typ ≠ k)) :
+    bs.lookup j = as.lookup j := by
+  rw [lookup_of_filter, lookup_of_filter]
+  have e : ∀ (l : Attrs), l.filter (fun a => a.typ = j) =
+      (l.filter (fun a => a.typ ≠ k)).filter (fun a => a.typ = j) := by
+    intro l; rw [List.filter_filter]; congr 1; funext a
+    by_cases ha : a.typ = j
+    · simp [ha, hjk]
+    · simp [ha]
+  rw [e bs, e as, h]
+
+theorem filter_eq_of_filter_ne (as bs : Attrs) (j k : Int) (hjk : j ≠ k)
+    (h : bs.filter (fun a => a.typ ≠ k) = as.filter (fun a => a.typ ≠ k)) :
+    bs.filter (fun a => a.typ = j) = as.filter (fun a => a.typ = j) := by
+  have e : ∀ (l : Attrs), l.filter (fun a => a.typ = j) =
+      (l.filter (fun a => a.typ ≠ k)).filter (fun a => a.typ = j) := by
+    intro l; rw [List.filter_filter]; congr 1; funext a
+    by_cases ha : a.typ = j
+    · simp [ha, hjk]
+    · simp [ha]
+  rw [e bs, e as, h]
+
 end RV
